@@ -45,6 +45,9 @@ var (
 	nilSlice   []interface{}
 	theIntMap  = map[string]int{"a": 1}
 	theIntList = []int{1, 2}
+	// typed slices whose elements would be JSON values one by one: still foreign as a whole
+	theMapSlice = []map[string]interface{}{{"id": 1.0, "name": "x"}, {"id": 2.0}}
+	theStrSlice = []string{"p", "q"}
 	// pointers to ordinary JSON documents: still not JSON values themselves
 	ifaceDoc interface{} = map[string]interface{}{"a": 1.0, "b": []interface{}{1.0, 2.0}}
 	ptrIface             = &ifaceDoc
@@ -92,6 +95,8 @@ var kinds = []kindT{
 	// a fresh pointer on every use: two occurrences are deeply equal but not identical
 	{"freshptr", func() interface{} { return &myPtrStruct{B: 9} }},
 	{"ifacestruct", func() interface{} { return myIfaceStruct{V: []int{1, 2}} }},
+	{"mapslice", func() interface{} { return theMapSlice }},
+	{"strslice", func() interface{} { return theStrSlice }},
 	{"ptriface", func() interface{} { return ptrIface }},
 	{"ptrmap", func() interface{} { return ptrMap }},
 	{"ptrslice", func() interface{} { return ptrSlice }},
